@@ -144,3 +144,14 @@ Theorem C10_lone_unit_example :
   exists svc sp, exo_run [exo_unit] = [(fst exo_unit, ROk svc sp)] /\
     In (fst exo_unit, ROk svc sp) (exo_run (exo_unit :: exo_rest)) /\ In (fst exo_unit, ROk svc sp) (exo_run (rev (exo_unit :: exo_rest))).
 Proof. exact lone_unit_example. Qed.
+
+(* a group of files whose non-pod units convert on their own: each has the same result in any two runs containing the group in the
+   same relative order -- whatever the other files are and wherever they sit in the order of discovery *)
+Theorem C10_group_result_any_surroundings : forall podman exists_path kill_fixed mount_nl (keepp : str -> bool) files files' p r,
+  filter (fun f => keepp (fst f)) files = filter (fun f => keepp (fst f)) files' ->
+  (forall a b, In a (map fst files) -> In b (map fst files) -> keepp a = true -> keepp b = false -> forall f, file_name a = Some f -> file_name b <> Some f) ->
+  (forall a b, In a (map fst files') -> In b (map fst files') -> keepp a = true -> keepp b = false -> forall f, file_name a = Some f -> file_name b <> Some f) ->
+  (forall q s, In (q, s) (snd (process_files podman exists_path kill_fixed mount_nl (filter (fun f => keepp (fst f)) files))) -> type_of_path q <> Some TPod -> exists svc sp, s = ROk svc sp) ->
+  In (p, r) (snd (process_files podman exists_path kill_fixed mount_nl (filter (fun f => keepp (fst f)) files))) -> type_of_path p <> Some TPod ->
+  In (p, r) (snd (process_files podman exists_path kill_fixed mount_nl files)) /\ In (p, r) (snd (process_files podman exists_path kill_fixed mount_nl files')).
+Proof. exact group_result_any_surroundings. Qed.
